@@ -16,12 +16,12 @@ Construction routes: the API (define_class / define_association / formalize / ne
 `loaded`, xtuml.ModelLoader: the population after a history prefix is written as SQL text (meta_common.Model.from_sql);
 D is checked on the loaded state and after every later op, K compares the loaded state with the model's state after
 the prefix and then step by step.
-Domain of the THEOREMS: relate/unrelate arguments are live instances; delete is applied to live and to already
-deleted instances (the repeated delete of the statement).  Histories that hand a DELETED instance to relate /
-unrelate (use-after-delete) are run as the family `uad`: the real code accepts such a relate and the deleted
-instance is reachable again, contradicting "only live instances are reachable" — the open finding
-`use-after-delete` of KNOWN_FINDINGS.txt (reported as KNOWN-FINDING; every other predicate is checked on
-those histories as on all others, and the model must still agree with the code step by step).
+Domain of the THEOREMS: EVERY history (the former guard "relate is applied to live instances" is gone): relate itself
+rejects an instance that is not in its pool.  Histories that hand a DELETED instance to relate / unrelate
+(use-after-delete) are the family `uad`: the statement requires RelateException for such a relate (UnknownLink-
+Exception first when no association matches; an unrelate is UnrelateException since the delete removed every
+pair), nothing may change, and no deleted instance may ever be reachable.  (Formerly the open finding
+`use-after-delete`: relate() accepted the deleted instance; repaired in /repo by the `deleted` set of MetaClass.)
 """
 import itertools
 
@@ -39,8 +39,8 @@ RULE = ('per association shape (1:1, 1:M, M:1 unconditional, reflexive with phra
         'loader-built model. Non-trivial: at least one accepted and one rejected '
         'relate or unrelate, or a delete of a linked instance; distinct = distinct (shape, history)')
 EXHAUSTIVE = {'quick': True, 'thorough': True}
-ASSUMPTIONS = ['the theorems about liveness assume relate/unrelate are called with live instances; use-after-delete histories are '
-               'run (family uad) and their dead-reachable states are the open finding use-after-delete',
+ASSUMPTIONS = ['none on the histories: relate / unrelate / delete are applied to live AND to deleted instances (family uad: a '
+               'relate with a deleted argument has to be rejected with RelateException)',
                'ids come from xtuml.IntegerGenerator; each class has at most one own unique_id attribute']
 CHUNK = 3000
 CASE_TIMEOUT_S = 20
@@ -128,9 +128,8 @@ def _random_history(r, schema, maxlen):
 
 
 def generate(ctx):
-    """histories of the domain; the ones that use an instance after its deletion form the family `uad`
-    (a bounded sample of them): there the real code accepts the relate and the deleted instance becomes
-    reachable again — the open finding `use-after-delete` (KNOWN_FINDINGS.txt)"""
+    """all histories; the ones that use an instance after its deletion form the family `uad` (a bounded sample of
+    them): the relate has to be rejected (RelateException), the deleted instance must not become reachable again"""
     uad, cap = 0, ctx.pick(3000, 60000)
     for c in _generate(ctx):
         if in_domain(c['ops']):
@@ -247,6 +246,8 @@ class Oracle(object):
         a = self.schema['assocs'][i]
         ps = self.pairs[i]
         if nm == 'relate':
+            if not (self.live[x0] and self.live[y0]):
+                return 'RelateException'          # a deleted instance must not become reachable again
             if (x, y) in ps:
                 return 'ok'
             if (not a['smany'] and any(p[0] == x for p in ps)) or (not a['tmany'] and any(p[1] == y for p in ps)):
@@ -350,13 +351,7 @@ def run_impl(case):
     stats = {'fam_' + case['fam']: 1}
 
     def fail(sig, what, step):
-        # entries of the open finding must not crowd out other failures of the same history: they do not count towards the cap
-        if sig == 'use-after-delete':
-            if not any(f['sig'] == sig for f in fails):
-                fails.append({'sig': sig, 'what': '%s (shape %s, after %d ops: %s)' % (what, case['shape'], step + 1,
-                                                                                      case['ops'][:step + 1][-6:])})
-            return
-        if len([f for f in fails if f['sig'] != 'use-after-delete']) < 3:
+        if len(fails) < 3:
             fails.append({'sig': sig, 'what': '%s (shape %s, after %d ops: %s)%s' % (
                 what, case['shape'], step + 1, case['ops'][:step + 1][-6:],
                 '; the first %d ops were LOADED FROM TEXT: %s' % (k0, ' '.join(model.sql.split('\n'))) if k0 else '')})
